@@ -18,7 +18,7 @@ func init() {
 
 func runC19(c *Ctx) {
 	r := c.R
-	r.Doc("G0", "every go statement starts a method of a discipline struct; inventory of goroutine entries", 9)
+	r.Doc("G0", "every go statement starts a method of a discipline struct; inventory of goroutine entries", 10)
 	r.Doc("G1", "every blocking operation of a child (handler) goroutine has a wake-up at termination", 5)
 	r.Doc("G2", "signals only from unconditional entry defers", 20)
 	r.Doc("G2b", "after the first user-visible signal only non-blocking deferred calls run; the entry does nothing after its defers", 7)
@@ -37,7 +37,7 @@ func runC19(c *Ctx) {
 			continue
 		}
 		if strings.Contains(o.Key, "#call:") {
-			continue // calls into a sub-discipline: bounded-time question of C16 (finding D), not a leak
+			continue // calls into a sub-discipline: bounded-time question of C16 (the repaired finding D), not a leak; the helper goroutine is covered by G1#helper
 		}
 		r.Check(o.OK, "G6", strings.TrimPrefix(strings.TrimPrefix(o.Key, "S1@"), "S2@"), o.Site, o.Detail, o.Detail)
 	}
@@ -100,6 +100,12 @@ func c19prog(c *Ctx, p *Prog) {
 			}
 			if e.Multi {
 				c19child(c, rt)
+				continue
+			}
+			if e.Helper() {
+				// G1 for a helper goroutine: it ends because its parent stops what it waits for
+				okh, why := p.helperBounded(d, e)
+				r.Check(okh, "G1", ek+"#helper", p.Pos(e.Entry.Pos()), why, "helper goroutine has no wake-up at termination: "+why)
 				continue
 			}
 			// ---- G2b
